@@ -29,6 +29,8 @@ pub enum Op {
     AddFilter(String),
     /// serialize and load own bytes
     ReloadSelf,
+    /// a load that FAILS (the first half of the engine's own bytes): nothing may change
+    LoadTruncated,
     /// load the bytes of a sibling engine built from `rules2`
     LoadSibling,
     /// replace the loaded resources by one of three fixed sets
@@ -193,6 +195,15 @@ pub fn check_engine(c: &HistCase, obs: &mut Obs) -> Result<(), String> {
                 e.deserialize(&bytes).map_err(|x| format!("deserialize: {:?}", x))?;
                 mutated = true;
                 obs.label("reload-self");
+            }
+            Op::LoadTruncated => {
+                let bytes = e.serialize_raw().map_err(|x| format!("serialize: {:?}", x))?;
+                if e.deserialize(&bytes[..bytes.len() / 2]).is_ok() {
+                    obs.exclude("a truncated buffer that loads (state after it is not modelled)");
+                    return Ok(());
+                }
+                mutated = true;
+                obs.label("failed-load");
             }
             Op::LoadSibling => {
                 let sib = build_engine(&c.rules2, c.base.debug, c.base.optimize, &res);
@@ -398,7 +409,7 @@ pub fn check_blocker(c: &BlkCase, obs: &mut Obs) -> Result<(), String> {
                     }
                 }
             }
-            Op::ReloadSelf | Op::LoadSibling | Op::UseResources(_) | Op::AddResource(_) => {}
+            Op::ReloadSelf | Op::LoadTruncated | Op::LoadSibling | Op::UseResources(_) | Op::AddResource(_) => {}
         }
     }
     if interesting {
@@ -424,7 +435,7 @@ fn ops(t: &mut Tape, nq: usize, blocker: bool, extra_pool: &[String]) -> Vec<Op>
             8 => Op::Disable(tagset(t)),
             9 => Op::Policy(t.pick(5) as u8),
             10..=11 => Op::DiscardRegex(t.pick(16)),
-            12 => if blocker { Op::Optimize } else { Op::ReloadSelf },
+            12 => if blocker { Op::Optimize } else if t.chance(1, 3) { Op::LoadTruncated } else { Op::ReloadSelf },
             15 if !blocker => if t.chance(1, 2) { Op::UseResources(t.pick(3) as u8) } else { Op::AddResource(t.pick(4) as u8) },
             13..=14 => {
                 if blocker {
@@ -451,6 +462,16 @@ fn regexy_rule(t: &mut Tape) -> String {
         let (ty, mc) = if t.chance(1, 2) { ("script", ",match-case") } else { ("image", "") };
         let w2 = t.choose(&["Ads", "Banner"]);
         return format!("/\\/{}Unit\\d?\\/{}/${}{}", w2, o, ty, mc);
+    }
+    if t.chance(1, 6) {
+        // one pattern body under different anchors (and request types): `body|`, `|…body`, `body`
+        let body = format!("/{}/*/{}", w, o);
+        return match t.pick(4) {
+            0 => format!("{}|$image", body),
+            1 => format!("{}$script", body),
+            2 => format!("|https://a.com{}$xhr", body),
+            _ => format!("||a.com{}|$font", body),
+        };
     }
     let p = match t.pick(9) {
         0 | 1 => format!("/{}^{}", w, o),
@@ -481,6 +502,11 @@ fn regexy_reqs(t: &mut Tape) -> Vec<ReqSpec> {
             // probes for the match-case twins: both case spellings, both request types
             let w2 = t.choose(&["Ads", "Banner", "ads", "banner"]);
             v.push(ReqSpec { url: format!("https://a.com/{}{}1/{}", w2, t.choose(&["Unit", "unit"]), o), source: "https://site.org/".into(), rtype: t.choose(&["script", "image"]).to_string() });
+            continue;
+        }
+        if t.chance(1, 5) {
+            // probes for the anchor twins: the body at the end of the URL or followed by more text
+            v.push(ReqSpec { url: format!("https://{}/{}/1/{}{}", t.choose(&["a.com", "b.com"]), w, o, t.choose(&["", ".png", "/x"])), source: "https://site.org/".into(), rtype: t.choose(&["script", "image", "xhr", "font"]).to_string() });
             continue;
         }
         let u = match t.pick(4) {
@@ -600,7 +626,7 @@ pub fn check_incremental(c: &gen::NetCase, obs: &mut Obs) -> Result<(), String> 
 }
 
 pub fn check(ctx: &mut Ctx) {
-    ctx.rule = "engine: rule list (network + cosmetic + same-shape tagged regex rules) and a history of 4-24 ops over {query all, query one, use/enable/disable tags, set discard policy (default / discard-everything-always / 1ns,1h / disabled / 1ns,Duration::MAX), discard_regex(k-th cached id), serialize+deserialize own bytes, deserialize a sibling engine's bytes, use_resources(one of 3 sets), add_resource(one of 4)}; blocker: the same plus Blocker::optimize() and Blocker::add_filter(line). After every query op all answers (network verdict, csp set, cosmetic resources, class/id selectors) are compared with a freshly built engine/blocker from the model's current rules + tag set. many-regexes: 2-800 same-shape (mostly regex) rules queried one after the other, twice, on one live blocker, sampled answers compared with a blocker built fresh for that single query. incremental: C01-style lists (1-20 rules, tags) loaded in one batch (Blocker::new) and one rule at a time (Blocker::add_filter on an empty blocker): equal answers on all requests. Non-trivial = a query op that follows at least one mutator.".into();
+    ctx.rule = "engine: rule list (network + cosmetic + same-shape tagged regex rules) and a history of 4-24 ops over {query all, query one, use/enable/disable tags, set discard policy (default / discard-everything-always / 1ns,1h / disabled / 1ns,Duration::MAX), discard_regex(k-th cached id), serialize+deserialize own bytes, a FAILING deserialize (first half of its own bytes), deserialize a sibling engine's bytes, use_resources(one of 3 sets), add_resource(one of 4)}; blocker: the same plus Blocker::optimize() and Blocker::add_filter(line). After every query op all answers (network verdict, csp set, cosmetic resources, class/id selectors) are compared with a freshly built engine/blocker from the model's current rules + tag set. many-regexes: 2-800 same-shape (mostly regex) rules queried one after the other, twice, on one live blocker, sampled answers compared with a blocker built fresh for that single query. incremental: C01-style lists (1-20 rules, tags) loaded in one batch (Blocker::new) and one rule at a time (Blocker::add_filter on an empty blocker): equal answers on all requests. Non-trivial = a query op that follows at least one mutator.".into();
     ctx.assumptions = vec![
         "elapsed time is exercised through discard policies and explicit discards; the wall clock is never consulted by the oracle".into(),
         "add_filter of a $badfilter rule, or of a rule an existing $badfilter targets, is documented as unsupported and skipped (counted)".into(),
